@@ -169,6 +169,27 @@ func c01Units(ctx *core.Ctx) []core.Unit {
 		}
 		r.Sample(map[string]interface{}{"statement": stmt{label: "vt", zs: []int{7, 8, 200}, polys: []namedPoly{a, a, a}, share: []int{1, 0, 1}, reprs: []int{reprFlip, reprProjFlip, reprNorm}}.String()})
 	}})
+	us = append(us, core.Unit{Name: "CPU count and GOMAXPROCS that differ (quota-restricted process)", Run: func(ctx *core.Ctx, r *core.Result) {
+		if !vsched.Instrumented {
+			r.Note("seam", "unavailable (fallback flavour)")
+			return
+		}
+		needRef()
+		polys := polyAlphabet(ctx.Seed)
+		defer vsched.SetGoMaxProcs(0)
+		for _, cfg := range [][2]int{{16, 1}, {16, 4}, {16, 8}, {4, 16}, {2, 64}, {64, 2}, {3, 2}} {
+			for _, n := range []int{1, 3, 5, 17} {
+				s := stmt{label: "vt"}
+				for i := 0; i < n; i++ {
+					s.zs = append(s.zs, (i*37+n)%256)
+					s.polys = append(s.polys, pick(polys, 8+i%6))
+				}
+				vsched.SetGoMaxProcs(cfg[1])
+				c01Case(r, s, cfg[0], false)
+			}
+		}
+		r.Sample(map[string]interface{}{"configs": "(NumCPU,GOMAXPROCS) in (16,1),(16,4),(16,8),(4,16),(2,64),(64,2),(3,2)", "n": []int{1, 3, 5, 17}})
+	}})
 	// (3) size sweep
 	sizes := []int{4, 5, 6, 7, 8, 9, 10, 11, 12, 13, 14, 15, 16, 17, 18, 19, 20, 31, 32, 33, 255, 256, 257, 1025}
 	if ctx.Thorough() {
